@@ -144,6 +144,10 @@ func c11bForkTable(c *Ctx, kind int) [][]c11Part {
 		for _, i := range c.Rng.Perm(len(c11bKeyPool))[:n] {
 			ks = append(ks, c11bKeyPool[i])
 		}
+		// near-equal siblings of one base key (case, trimming, normal forms, escape hex case, leading zeros …)
+		if c.Rng.Intn(3) == 0 {
+			ks = c11NearSubset(c, c11NearBase(c), 7)
+		}
 		// one key a ("_"-)suffix of another one
 		if c.Rng.Intn(2) == 0 {
 			pairs := [][2]string{{"matched_normal", "normal"}, {"a_b", "b"}, {"xb", "b"}, {"0_1", "1"}, {"1_0", "0"}, {"x_1", "_1"}, {"x1", "1"}, {"b_", "_"}}
